@@ -74,6 +74,16 @@ pub(super) enum LazyStatement {
 impl LazyStatement {
     pub(super) fn evaluate(&self, exec: &mut EvaluationContext) -> Result<(), ExecutionError> {
         exec.cancellation_flag.check("evaluating statement")?;
+        #[cfg(feature = "verif")]
+        crate::verif::emit(|| {
+            let (kind, ctx): (&str, crate::execution::error::StatementContext) = match self {
+                Self::AddGraphNodeAttribute(stmt) => ("attrn", stmt.debug_info.clone().into()),
+                Self::CreateEdge(stmt) => ("edge", stmt.debug_info.clone().into()),
+                Self::AddEdgeAttribute(stmt) => ("attre", stmt.debug_info.clone().into()),
+                Self::Print(stmt) => ("print", stmt.debug_info.clone().into()),
+            };
+            crate::verif::json!({"e": "lstmt", "k": kind, "row": ctx.statement_location.row, "col": ctx.statement_location.column})
+        });
         debug!("eval {}", self);
         trace!("{{");
         let result = match self {
@@ -158,6 +168,10 @@ impl LazyAddGraphNodeAttribute {
             .with_context(|| "Evaluating target node".to_string().into())?;
         for attribute in &self.attributes {
             let value = attribute.value.evaluate(exec)?;
+            #[cfg(feature = "verif")]
+            crate::verif::emit(|| {
+                crate::verif::json!({"e": "attr", "on": "node", "src": node.index(), "name": attribute.name.as_str(), "val": crate::verif::value(&value)})
+            });
             let prev_debug_info = exec.prev_element_debug_info.insert(
                 GraphElementKey::NodeAttribute(node, attribute.name.clone()),
                 self.debug_info.clone(),
@@ -226,10 +240,16 @@ impl LazyCreateEdge {
             .sink
             .evaluate_as_graph_node(exec)
             .with_context(|| "Evaluating edge sink".to_string().into())?;
+        #[cfg(feature = "verif")]
+        let verif_new = exec.graph[source].get_edge(sink).is_none();
         let edge = match exec.graph[source].add_edge(sink) {
             Ok(edge) | Err(edge) => edge,
         };
         edge.attributes = self.attributes.clone();
+        #[cfg(feature = "verif")]
+        crate::verif::emit(|| {
+            crate::verif::json!({"e": "edge", "src": source.index(), "dst": sink.index(), "new": verif_new})
+        });
         Ok(())
     }
 }
@@ -286,6 +306,10 @@ impl LazyAddEdgeAttribute {
                     source, sink, self.debug_info,
                 ))),
             }?;
+            #[cfg(feature = "verif")]
+            crate::verif::emit(|| {
+                crate::verif::json!({"e": "attr", "on": "edge", "src": source.index(), "dst": sink.index(), "name": attribute.name.as_str(), "val": crate::verif::value(&value)})
+            });
             let prev_debug_info = exec.prev_element_debug_info.insert(
                 GraphElementKey::EdgeAttribute(source, sink, attribute.name.clone()),
                 self.debug_info.clone(),
